@@ -259,7 +259,7 @@ Lemma coarse_eff_ok v cs p e w :
   eff_ok (cfg_of w cs) (node_of w p) -> eff_ok (cfg_of w cs) (step_node_fn v cs p e w).
 Proof.
   intros H. unfold step_node_fn.
-  destruct e as [w'|w'|w' i|w' i|w'|w' k d|w' f|w'|w' i]; try exact H; destruct (who_eqb w w'); try exact H.
+  destruct e as [w'|w'|w' i|w' i|w'|w' k d|w' f|w'|w' i|w' i]; try exact H; destruct (who_eqb w w'); try exact H.
   - eapply same_track_eff_ok; [apply start_facts | exact H].
   - destruct (nth_error _ _) as [m|]; [|exact H]. eapply same_track_eff_ok; [apply hb_facts | exact H].
   - eapply same_track_eff_ok; [apply peer_lost_facts | exact H].
